@@ -69,6 +69,8 @@ def gen_call(g, cfg, api, seed, mid=None):
         rec["m"] = {"id": mid, "type": "lganm", "spec": spec}
         rec["args"] = {"n": rand_n(g), "do": G.lganm_ivs(g, p), "shift": G.lganm_ivs(g, p),
                        "noise": G.lganm_ivs(g, p)}
+        if g.random() < 0.05:
+            del rec["args"]["n"]         # LGANM.sample's default n (100)
     elif api == "nd.sample":
         rec["m"] = {"id": mid, "type": "nd", "spec": G.nd_spec(g, p)}
         rec["args"] = {"n": rand_n(g)}
@@ -130,6 +132,8 @@ def nd_eligible(rec):
     if api == "gen.dag_full":
         # p(p-1)/2 continuous weights: two independent draws coincide with probability 0
         return a["p"] >= 3 and a["w_max"] > a["w_min"]
+    if api == "lganm.sample" and "n" not in a:
+        a = dict(a, n=100)
     if api == "gen.dag_avg_deg":
         # the orderings alone coincide with probability 1/p! < 2**-64 for p >= 21
         return a["p"] >= 21 and bool(a.get("return_ordering"))
